@@ -257,12 +257,18 @@ func FromGoType(obj interface{}) Object {
 	case int64:
 		return NewInt(obj)
 	case uint:
+		if uint64(obj) > math.MaxInt64 {
+			return TypeErrorf("type error: value %d is out of range for int", obj)
+		}
 		return NewInt(int64(obj))
 	case uint16:
 		return NewInt(int64(obj))
 	case uint32:
 		return NewInt(int64(obj))
 	case uint64:
+		if obj > math.MaxInt64 {
+			return TypeErrorf("type error: value %d is out of range for int", obj)
+		}
 		return NewInt(int64(obj))
 	case float32:
 		return NewFloat(float64(obj))
